@@ -6,7 +6,8 @@ evaluated by the Gallina model SV.C14.Scc inside coqc (vm_compute) and must give
 Independently (a) a Python oracle (boolean transitive closure of the subgraph induced by the node set) judges
 the implementation's outputs against the property itself and (b) the Coq boolean checkers scc_check /
 topo_check / cond_check (proved sound w.r.t. the inductive specification in SV.C14.SccSpecProofs) are evaluated
-by the kernel on BOTH the implementation's and the model's output of every case: a per-run certificate.
+by the kernel on BOTH the implementation's and the model's output of every small case: a per-run certificate.
+General theorems (all inputs) about the model: coq/Props/C14.v.
 """
 import json
 
@@ -16,6 +17,7 @@ ID = "C14"
 ANCHORS = ["solvor/scc.py"]
 FINDING_CLASS = "scc_outside_neighbours"   # class name of a (possible) known-findings entry
 IMPORTS = "From SV Require Import C14.Scc C14.SccSpec."
+SPEC_MAX_N = 10
 
 
 # ---------------------------------------------------------------- generators
@@ -29,7 +31,7 @@ def gen_case(rng, big=False, kind=None):
     """A case = dict(nodes=[nat...], adj=[[v,[w...]]...], kind, label, edges_variant)."""
     kinds = ["random", "random", "dag", "dag", "cycle", "nested", "multi", "sparse", "dense", "dupnodes"]
     kind = kind or rng.choice(kinds)
-    n = rng.choice([1, 2, 3, 3, 4, 4, 5, 5, 6, 6, 7, 8] + ([10, 12, 16, 24] if big else []))
+    n = rng.choice([1, 2, 3, 3, 4, 4, 5, 5, 6, 6, 7, 8] + ([10, 12, 16, 20] if big else []))
     adj = {v: [] for v in range(n)}
 
     def add(u, w):
@@ -432,8 +434,10 @@ def run(ctx: Ctx):
     ctx.notes.append("topological_sort judged by the oracle only for duplicate-free node iterables (with duplicates the code counts edges "
                      "per occurrence; model follows the code, correspondence still checked)")
     ctx.notes.append("condense: successor sets compared as sets, members of a condensed node (frozenset) compared sorted")
-    ctx.notes.append("per-run Coq certificates scc_check/topo_check/cond_check are kernel-checked facts about the explored cases only, "
-                     "not general theorems (general: C14_topo_*, C14_scc_partition, C14_condense)")
+    ctx.notes.append(f"Coq spec checkers are evaluated on the cases with <= {SPEC_MAX_N} distinct nodes (cost ~n^5); larger graphs: Python oracle + correspondence")
+    ctx.notes.append("general theorems (Props/C14.v) are about the Gallina model; the model is tied to /repo by the correspondence lemmas of "
+                     "this run; in addition the sound Coq checkers scc_check/topo_check/cond_check are evaluated in the kernel on the "
+                     "implementation's own outputs (a per-run certificate about the explored cases, independent of the model)")
     big = ctx.tier == "thorough"
     nrand = ctx.budget(700, 12000)
     cases = _corpus() + [dict(c) for c in FIXED] + [gen_case(ctx.rng, big) for _ in range(nrand)]
@@ -505,21 +509,25 @@ def run(ctx: Ctx):
         "fun c => topo_obs_eqb (topo_edges (fst (fst c)) (snd (fst c))) (snd c)",
         [f"(({len(cases[i]['nodes'])}, {c_edges(cases[i])}), {c_topo_obs(outs[i]['topo_e'])})" for i in ev], ev)
     # spec checkers (independent of the model) on the implementation's outputs, and on the model's outputs
-    nd = [i for i in all_idx if not has_dup_nodes(cases[i])]
+    # (the closure-based checkers cost ~n^5: evaluated in Coq for graphs with <= SPEC_MAX_N nodes; larger graphs are
+    #  judged by the Python oracle and the correspondence only)
+    small = [i for i in all_idx if len(set(cases[i]["nodes"])) <= SPEC_MAX_N]
+    nd = [i for i in small if not has_dup_nodes(cases[i])]
+    ctx.count("coq_spec_checked_cases", len(small), 1)
     chk("spec_scc_impl", "(graph * list nat) * option (list (list nat))",
         "fun c => ocheck (scc_check (fst (fst c)) (snd (fst c))) (snd c)",
-        [f"({gn[i]}, {c_scc_obs(outs[i]['scc'])})" for i in all_idx], all_idx)
+        [f"({gn[i]}, {c_scc_obs(outs[i]['scc'])})" for i in small], small)
     chk("spec_topo_impl", "(graph * list nat) * option (option (list nat))",
         "fun c => ocheck (topo_check (fst (fst c)) (snd (fst c))) (snd c)",
         [f"({gn[i]}, {c_topo_obs(outs[i]['topo'])})" for i in nd], nd)
     chk("spec_cond_impl", "(graph * list nat) * option (list (list nat) * list (list nat))",
         "fun c => ocheck (fun o => scc_check (fst (fst c)) (snd (fst c)) (fst o) && cond_check (fst (fst c)) (snd (fst c)) o) (snd c)",
-        [f"({gn[i]}, {c_cond_obs(outs[i]['cond'])})" for i in all_idx], all_idx)
+        [f"({gn[i]}, {c_cond_obs(outs[i]['cond'])})" for i in small], small)
     chk("spec_model", "graph * list nat",
         "fun c => ocheck (scc_check (fst c) (snd c)) (scc (fst c) (snd c)) "
         "&& (negb (nodupb (snd c)) || ocheck (topo_check (fst c) (snd c)) (topological_sort (fst c) (snd c))) "
         "&& ocheck (cond_check (fst c) (snd c)) (condense (fst c) (snd c))",
-        [gn[i] for i in all_idx], all_idx)
+        [gn[i] for i in small], small)
     ctx.traces_validated += len(cases)
     ctx.count("cases_disagreeing_with_model_or_spec", len(disagree))
 
